@@ -1,9 +1,20 @@
 //! Library-level driver over join_impl: parse / expand / names / purity.
 //! Reads JSON lines on stdin, writes one JSON line per request on stdout.
+//!
+//! Built three times with different features so that a refactoring of join_impl's internal surface only
+//! disables the checks that look at that surface:
+//!   libdrv   (no feature)  expand / hash / concurrent / turns / valid: generate_join, Config, JoinInputDefault only
+//!   parsedrv (`parse`)     + parse: dumps the parsed chain structure (chain / group / handler enums)
+//!   namesdrv (`names`)     + names: calls the name constructors
+#[cfg(feature = "parse")]
 use join_impl::chain::expr::{ActionExpr, ErrExpr, InitialExpr, ProcessExpr};
+#[cfg(feature = "parse")]
 use join_impl::chain::group::{ApplicationType, MoveType};
+#[cfg(feature = "parse")]
 use join_impl::chain::Chain;
+#[cfg(feature = "parse")]
 use join_impl::handler::Handler;
+#[cfg(feature = "names")]
 use join_impl::join::name_constructors as nc;
 use join_impl::{generate_join, Config, JoinInputDefault};
 use proc_macro2::TokenStream;
@@ -14,10 +25,12 @@ use std::str::FromStr;
 use std::sync::atomic::{AtomicU64, Ordering};
 use std::sync::Arc;
 
+#[allow(dead_code)]
 fn ts(x: &impl ToTokens) -> String {
     x.to_token_stream().to_string()
 }
 
+#[cfg(feature = "parse")]
 fn member_json(expr: &ActionExpr) -> (String, Vec<String>) {
     match expr {
         ActionExpr::Initial(InitialExpr::Single([e])) => ("Initial".into(), vec![ts(e)]),
@@ -58,6 +71,7 @@ fn member_json(expr: &ActionExpr) -> (String, Vec<String>) {
     }
 }
 
+#[cfg(feature = "parse")]
 fn dump(j: &JoinInputDefault) -> Value {
     let branches: Vec<Value> = j
         .branches
@@ -176,6 +190,7 @@ fn fnv(s: &str) -> u64 {
 fn handle(req: &Value) -> Value {
     let cmd = req["cmd"].as_str().unwrap_or("");
     let mut out = match cmd {
+        #[cfg(feature = "parse")]
         "parse" => match parse_input(req["input"].as_str().unwrap_or("")) {
             Ok(j) => json!({"class":"ok","dump":dump(&j)}),
             Err((c, m)) => json!({"class":c,"msg":m}),
@@ -193,6 +208,7 @@ fn handle(req: &Value) -> Value {
                 None => json!({"class":v["class"],"hash":format!("{:016x}", fnv(v["msg"].as_str().unwrap_or(""))),"len":0}),
             }
         }
+        #[cfg(feature = "names")]
         "names" => {
             let n = req["n"].as_u64().unwrap_or(25) as usize;
             let mut fam = serde_json::Map::new();
